@@ -18,6 +18,7 @@ ROOT = os.path.dirname(os.path.dirname(os.path.abspath(__file__)))
 PY = "/verif/.venv/bin/python"
 REPO_SRC = os.environ.get("FANDANGO_SRC", "/repo/src")
 JOBS = int(os.environ.get("VERIF_JOBS", "16"))
+OUT = os.environ.get("VERIF_OUT", ROOT)  # evidence/ and replays/ are written below this directory (seed-matrix runs use a scratch one)
 
 
 class Cond:
@@ -75,8 +76,8 @@ def run_chrun(harness, fn, timeout, path_timeout, exclude, henv=None):
 
 
 def native_replay(harness, fn, args, alarm=120, henv=None):
-    os.makedirs(os.path.join(ROOT, "replays", "tmp"), exist_ok=True)
-    tmp = os.path.join(ROOT, "replays", "tmp", f"{os.getpid()}_{fn}_{abs(hash(json.dumps(args, sort_keys=True)))}.json")
+    os.makedirs(os.path.join(OUT, "replays", "tmp"), exist_ok=True)
+    tmp = os.path.join(OUT, "replays", "tmp", f"{os.getpid()}_{fn}_{abs(hash(json.dumps(args, sort_keys=True)))}.json")
     json.dump(args, open(tmp, "w"))
     try:
         p = subprocess.run([PY, os.path.join(ROOT, "engine", "native.py"), "replay", harness, fn, tmp],
@@ -244,7 +245,7 @@ class Run:
         self.errors.append(f"{tag}: inconclusive ({st}): {r['message'][:300]}")
 
     def add_violation(self, harness, fn, args, observed, henv=None):
-        d = os.path.join(ROOT, "replays", self.prop)
+        d = os.path.join(OUT, "replays", self.prop)
         os.makedirs(d, exist_ok=True)
         body = {"property": self.prop, "harness": harness, "function": fn, "env": henv or {}, "args": args, "observed": observed}
         h = hashlib.sha256(json.dumps([harness, fn, henv, args], sort_keys=True).encode()).hexdigest()[:12]
@@ -294,8 +295,8 @@ class Run:
             "wall_s": round(time.time() - self.t0, 2),
             "violations": len(self.violations),
         }
-        os.makedirs(os.path.join(ROOT, "evidence"), exist_ok=True)
-        json.dump(ev, open(os.path.join(ROOT, "evidence", f"{self.prop}.json"), "w"), indent=1)
+        os.makedirs(os.path.join(OUT, "evidence"), exist_ok=True)
+        json.dump(ev, open(os.path.join(OUT, "evidence", f"{self.prop}.json"), "w"), indent=1)
         for e in self.errors:
             print("HARNESS-ERROR:", e, flush=True)
         status = "held" if not self.violations and not self.errors else ("VIOLATED" if self.violations else "INCONCLUSIVE")
